@@ -327,7 +327,7 @@ func (u *Url) IsIPv6() bool {
 
 // Clone returns a deep copy of the URL.
 func (u *Url) Clone() *Url {
-	return &Url{
+	c := &Url{
 		inputUrl:     u.inputUrl,
 		scheme:       u.scheme,
 		username:     u.username,
@@ -343,6 +343,9 @@ func (u *Url) Clone() *Url {
 		isIPv4:       u.isIPv4,
 		isIPv6:       u.isIPv6,
 	}
+	// the cloned parameter list must write through to the clone, not to the original
+	c.searchParams.url = c
+	return c
 }
 
 func cloneStringPointer(s *string) *string {
